@@ -603,3 +603,297 @@ Qed.
 
 Lemma F6_rejected_now : infer witness_F6 = Ok None /\ infer witness_F5 = Ok None.
 Proof. split; vm_compute; reflexivity. Qed.
+
+(* ================= the instances the case runner evaluates are the model ================= *)
+
+Lemma bytes_eqb_neq : forall a b, a <> b -> bytes_eqb a b = false.
+Proof.
+  intros a b H. destruct (bytes_eqb a b) eqn:E; [|reflexivity].
+  exfalso. apply H. apply bytes_eqb_eq. exact E.
+Qed.
+
+(* each key is the decimal string of its own value *)
+Definition key_canonical (c : curve_row) : bool := bytes_eqb (c_key c) (dec_of_Z (key_value c)).
+
+Lemma find_z_lookup : forall t, forallb key_canonical t = true -> forall z,
+  find_z (with_key_values t) z = lookup t (dec_of_Z z).
+Proof.
+  induction t as [|c t IH]; intros Ht z; [reflexivity|].
+  cbn [forallb] in Ht. apply andb_prop in Ht. destruct Ht as [Hc Ht].
+  unfold with_key_values. cbn [map find_z lookup]. fold (with_key_values t).
+  apply bytes_eqb_eq in Hc.
+  destruct (key_value c =? z)%Z eqn:E.
+  - apply Z.eqb_eq in E. rewrite Hc, E, bytes_eqb_refl. reflexivity.
+  - rewrite (bytes_eqb_neq (c_key c) (dec_of_Z z)).
+    + apply IH; exact Ht.
+    + intro H. rewrite Hc in H. apply dec_of_Z_inj in H. apply Z.eqb_neq in E. contradiction.
+Qed.
+
+Lemma keys_canonical_now : forallb key_canonical table = true.
+Proof. vm_compute. reflexivity. Qed.
+
+Lemma find_fast_is_lookup : forall z, find_z table_z z = lookup table (dec_of_Z z).
+Proof. exact (find_z_lookup table keys_canonical_now). Qed.
+
+Lemma infer_row_with_ext : forall f g, (forall z, f z = g z) -> forall f5 f6 p,
+  infer_row_with f f5 f6 p = infer_row_with g f5 f6 p.
+Proof.
+  intros f g H f5 f6 p. unfold infer_row_with.
+  destruct (oid_eqb _ _); [|reflexivity]. destruct (p_prime p); [|reflexivity].
+  rewrite H. reflexivity.
+Qed.
+
+Lemma curve_name_with_ext : forall f g, (forall z, f z = g z) -> forall f5 f6 p,
+  curve_name_with f f5 f6 p = curve_name_with g f5 f6 p.
+Proof. intros f g H f5 f6 p. unfold curve_name_with. rewrite (infer_row_with_ext f g H). reflexivity. Qed.
+
+Lemma explicit_attrs_with_ext : forall f g, (forall z, f z = g z) -> forall f5 f6 p,
+  explicit_attrs_with f f5 f6 p = explicit_attrs_with g f5 f6 p.
+Proof. intros f g H f5 f6 p. unfold explicit_attrs_with. rewrite (curve_name_with_ext f g H). reflexivity. Qed.
+
+Lemma container_info_with_ext : forall f g, (forall z, f z = g z) -> forall f5 f6 kind pem state p,
+  container_info_with f f5 f6 kind pem state p = container_info_with g f5 f6 kind pem state p.
+Proof.
+  intros f g H f5 f6 kind pem state p. unfold container_info_with.
+  rewrite (explicit_attrs_with_ext f g H). reflexivity.
+Qed.
+
+(* with the list lookup by the decimal string the parametrised functions are the model's *)
+Lemma curve_name_with_is_gen : forall f5 f6 t p,
+  curve_name_with (fun z => lookup t (dec_of_Z z)) f5 f6 p = curve_name_gen f5 f6 t p.
+Proof. reflexivity. Qed.
+
+Lemma container_info_with_is_gen : forall f5 f6 t kind pem state p,
+  container_info_with (fun z => lookup t (dec_of_Z z)) f5 f6 kind pem state p =
+  container_info_gen f5 f6 t kind pem state p.
+Proof. reflexivity. Qed.
+
+Lemma curve_name_fast_eq : forall p, params_curve_name_fast p = curve_name p.
+Proof.
+  intros p. unfold params_curve_name_fast, curve_name. rewrite <- curve_name_with_is_gen.
+  apply curve_name_with_ext. exact find_fast_is_lookup.
+Qed.
+
+Lemma container_info_fast_eq : forall kind pem state p,
+  container_info_fast kind pem state p = container_info kind pem state p.
+Proof.
+  intros. unfold container_info_fast, container_info. rewrite <- container_info_with_is_gen.
+  apply container_info_with_ext. exact find_fast_is_lookup.
+Qed.
+
+Lemma pem_loop_with_ext : forall ci ci', (forall k pem s p, ci k pem s p = ci' k pem s p) ->
+  forall blocks acc, pem_loop_with ci acc blocks = pem_loop_with ci' acc blocks.
+Proof.
+  intros ci ci' H. induction blocks as [|b blocks IH]; intros acc; cbn [pem_loop_with]; [reflexivity|].
+  replace (describe_block_with ci b) with (describe_block_with ci' b)
+    by (destruct b; cbn [describe_block_with]; auto).
+  unfold bind. destruct (describe_block_with ci' b); auto.
+Qed.
+
+Lemma describe_with_ext : forall ci ci', (forall k pem s p, ci k pem s p = ci' k pem s p) ->
+  forall c, describe_with ci c = describe_with ci' c.
+Proof.
+  intros ci ci' H c. destruct c; cbn [describe_with]; auto.
+  unfold pem_file_with, describe_bundle_with. rewrite (pem_loop_with_ext ci ci' H). reflexivity.
+Qed.
+
+Lemma describe_fast_eq : forall c, describe_fast c = describe c.
+Proof. intros c. apply describe_with_ext. exact container_info_fast_eq. Qed.
+
+Lemma describe_history_fast_eq : forall cs, describe_history_fast cs = describe_history cs.
+Proof. intros cs. unfold describe_history_fast, describe_history. apply map_ext. exact describe_fast_eq. Qed.
+
+(* ================= several blocks in one PEM file: each block is described alone ================= *)
+
+Fixpoint map_result {A B} (f : A -> result B) (l : list A) : result (list B) :=
+  match l with
+  | [] => Ok []
+  | x :: r => let* y := f x in let* ys := map_result f r in Ok (y :: ys)
+  end.
+
+Lemma pem_loop_is_map : forall ci blocks acc,
+  pem_loop_with ci acc blocks = let* r := map_result (describe_block_with ci) blocks in Ok (acc ++ r).
+Proof.
+  intros ci. induction blocks as [|b blocks IH]; intros acc; cbn [pem_loop_with map_result].
+  - unfold bind. rewrite app_nil_r. reflexivity.
+  - unfold bind at 1 3. destruct (describe_block_with ci b) as [i|e|e]; [|reflexivity|reflexivity].
+    rewrite IH. unfold bind. destruct (map_result (describe_block_with ci) blocks); [|reflexivity|reflexivity].
+    rewrite <- app_assoc. reflexivity.
+Qed.
+
+(* PEMFile's loop over the blocks is the map of the per-block describer *)
+Lemma describe_bundle_is_map : forall blocks, describe_bundle blocks = map_result describe_block blocks.
+Proof.
+  intros blocks. unfold describe_bundle, describe_bundle_with. rewrite pem_loop_is_map.
+  unfold describe_block, bind. destruct (map_result _ blocks); reflexivity.
+Qed.
+
+Lemma map_result_pure : forall {A B} (f : A -> result B) (g : A -> B) l,
+  (forall x, In x l -> f x = Ok (g x)) -> map_result f l = Ok (map g l).
+Proof.
+  intros A B f g. induction l as [|x l IH]; intros H; cbn [map_result map]; [reflexivity|].
+  rewrite (H x (or_introl eq_refl)). unfold bind. rewrite IH; [reflexivity|].
+  intros y Hy. apply H. right. exact Hy.
+Qed.
+
+Lemma describe_bundle_pure : forall (g : pem_block -> info) blocks,
+  (forall b, In b blocks -> describe_block b = Ok (g b)) -> describe_bundle blocks = Ok (map g blocks).
+Proof. intros g blocks H. rewrite describe_bundle_is_map. apply map_result_pure. exact H. Qed.
+
+Lemma map_result_nth : forall {A B} (f : A -> result B) l r n x,
+  map_result f l = Ok r -> nth_error l n = Some x ->
+  exists y, nth_error r n = Some y /\ f x = Ok y.
+Proof.
+  intros A B f. induction l as [|a l IH]; intros r n x H Hn.
+  - destruct n; discriminate.
+  - cbn [map_result] in H. unfold bind in H.
+    destruct (f a) as [y| |] eqn:Ea; try discriminate.
+    destruct (map_result f l) as [ys| |] eqn:El; try discriminate.
+    inversion H; subst r. destruct n as [|n]; cbn [nth_error] in *.
+    + inversion Hn; subst a. eauto.
+    + eapply IH; eauto.
+Qed.
+
+Lemma map_result_length : forall {A B} (f : A -> result B) l r, map_result f l = Ok r -> length r = length l.
+Proof.
+  intros A B f. induction l as [|a l IH]; intros r H; cbn [map_result] in H.
+  - inversion H. reflexivity.
+  - unfold bind in H. destruct (f a); try discriminate. destruct (map_result f l) eqn:El; try discriminate.
+    inversion H. cbn [length]. f_equal. apply IH. reflexivity.
+Qed.
+
+(* the report of a block is a function of that block alone: whatever stands before and after it *)
+Lemma bundle_context_free : forall pre post pre' post' b r r',
+  describe_bundle (pre ++ b :: post) = Ok r -> describe_bundle (pre' ++ b :: post') = Ok r' ->
+  exists i, describe_block b = Ok i /\
+            nth_error r (length pre) = Some i /\ nth_error r' (length pre') = Some i.
+Proof.
+  intros pre post pre' post' b r r' H H'.
+  rewrite describe_bundle_is_map in H, H'.
+  assert (Hn : forall (l1 l2 : list pem_block), nth_error (l1 ++ b :: l2) (length l1) = Some b).
+  { intros l1 l2. rewrite nth_error_app2 by lia. rewrite Nat.sub_diag. reflexivity. }
+  destruct (map_result_nth _ _ _ _ _ H (Hn pre post)) as [i [Hi Hb]].
+  destruct (map_result_nth _ _ _ _ _ H' (Hn pre' post')) as [i' [Hi' Hb']].
+  exists i. rewrite Hb in Hb'. inversion Hb'; subst i'. auto.
+Qed.
+
+(* ----- where a "Curve (inferred)" attribute can come from ----- *)
+
+Lemma name_differs : forall (n : bytes) (v shown : bytes) (l : list (bytes * bytes)),
+  bytes_eqb n (bs "Curve (inferred)") = false ->
+  In (bs "Curve (inferred)", shown) ((n, v) :: l) -> In (bs "Curve (inferred)", shown) l.
+Proof.
+  intros n v shown l Hn [H|H]; [|exact H].
+  inversion H; subst n. rewrite bytes_eqb_refl in Hn. discriminate.
+Qed.
+
+Lemma explicit_attrs_inferred : forall p ea shown, explicit_attrs p = Ok ea ->
+  In (bs "Curve (inferred)", shown) ea -> curve_name p = Ok shown /\ shown <> [].
+Proof.
+  intros p ea shown H Hin. unfold explicit_attrs, explicit_attrs_gen in H.
+  fold (curve_name p) in H. unfold bind in H.
+  destruct (curve_name p) as [nm| |] eqn:E; try discriminate.
+  inversion H; subst ea; clear H.
+  cbn [app] in Hin. apply name_differs in Hin; [|vm_compute; reflexivity].
+  apply in_app_or in Hin. destruct Hin as [Hin|Hin].
+  { exfalso. destruct (oid_eqb (p_field p) oid_prime_field); [|contradiction].
+    destruct (p_prime p); [|contradiction].
+    apply name_differs in Hin; [contradiction | vm_compute; reflexivity]. }
+  apply in_app_or in Hin. destruct Hin as [Hin|Hin].
+  { exfalso. destruct (oid_eqb (p_field p) oid_char2_field); [|contradiction].
+    destruct (p_char2 p); [|contradiction].
+    apply name_differs in Hin; [contradiction | vm_compute; reflexivity]. }
+  destruct nm as [|n0 nm]; [contradiction|].
+  destruct Hin as [Hin|[]]. inversion Hin; subst shown. split; [reflexivity | discriminate].
+Qed.
+
+Lemma container_info_inferred : forall kind pem state p i shown,
+  container_info kind pem state p = Ok i -> In (bs "Curve (inferred)", shown) (i_attrs i) ->
+  state = 2 /\ curve_name p = Ok shown /\ shown <> [].
+Proof.
+  intros kind pem state p i shown H Hin. unfold container_info, container_info_gen in H.
+  fold (explicit_attrs p) in H. unfold bind in H.
+  assert (Halgo : forall l, In (bs "Curve (inferred)", shown) (algo_ecdsa :: l) -> In (bs "Curve (inferred)", shown) l).
+  { intros l. unfold algo_ecdsa. apply name_differs. vm_compute. reflexivity. }
+  destruct (state =? 2) eqn:Es.
+  - apply N.eqb_eq in Es. split; [exact Es|].
+    destruct (explicit_attrs p) as [ea| |] eqn:Ea; try discriminate.
+    assert (Hea : In (bs "Curve (inferred)", shown) ea).
+    { repeat match type of H with
+      | (if ?b then _ else _) = _ => destruct b
+      end; try discriminate; inversion H; subst i; cbn [i_attrs leaf] in Hin; auto. }
+    eapply explicit_attrs_inferred; eauto.
+  - exfalso.
+    repeat match type of H with
+    | (if ?b then _ else _) = _ => destruct b
+    end; try discriminate; inversion H; subst i; cbn [i_attrs leaf] in Hin;
+      try (apply Halgo in Hin); contradiction.
+Qed.
+
+(* a block of a bundle is reported with an inferred name only if its OWN parameters are that curve's *)
+Lemma bundle_exact : forall blocks r n kind state p i shown,
+  describe_bundle blocks = Ok r ->
+  nth_error blocks n = Some (BEC kind state p) -> nth_error r n = Some i ->
+  In (bs "Curve (inferred)", shown) (i_attrs i) ->
+  state = 2 /\ curve_name p = Ok shown /\
+  exists nm k, infer p = Ok (Some nm) /\ nist nm = Some k /\ exact k p.
+Proof.
+  intros blocks r n kind state p i shown H Hb Hr Hin.
+  rewrite describe_bundle_is_map in H.
+  destruct (map_result_nth _ _ _ _ _ H Hb) as [i' [Hi' Hd]].
+  rewrite Hr in Hi'. inversion Hi'; subst i'.
+  unfold describe_block, describe_block_with in Hd.
+  destruct (container_info_inferred _ _ _ _ _ _ Hd Hin) as [Hs [Hn Hne]].
+  split; [exact Hs|]. split; [exact Hn|].
+  destruct (curve_name_of_infer p shown Hn Hne) as [c [_ [Hinf _]]].
+  destruct (infer_exact p (c_name c) Hinf) as [k [Hk Hx]]. eauto.
+Qed.
+
+(* the whole file: one block -> its report; several -> one child per block, in order *)
+Lemma pem_file_children : forall blocks rep, (2 <= length blocks)%nat -> pem_file blocks = Ok rep ->
+  describe_bundle blocks = Ok (i_children rep) /\ i_attrs rep = [] /\ length (i_children rep) = length blocks.
+Proof.
+  intros blocks rep Hl H. unfold pem_file, pem_file_with in H. fold (describe_bundle blocks) in H.
+  unfold bind in H. destruct (describe_bundle blocks) as [infos| |] eqn:E; try discriminate.
+  assert (Hlen : length infos = length blocks).
+  { rewrite describe_bundle_is_map in E. eapply map_result_length; eauto. }
+  destruct infos as [|i1 [|i2 infos]]; cbn [length] in Hlen; try lia.
+  inversion H; subst rep. cbn [i_children i_attrs]. auto.
+Qed.
+
+Lemma pem_file_single : forall b rep, pem_file [b] = Ok rep -> describe_block b = Ok rep.
+Proof.
+  intros b rep H. unfold pem_file, pem_file_with, describe_bundle_with in H. cbn [pem_loop_with] in H.
+  fold (describe_block b) in H. unfold bind in H. destruct (describe_block b); try discriminate.
+  cbn [app] in H. exact H.
+Qed.
+
+Lemma pem_file_exact : forall blocks rep n kind state p i shown,
+  (2 <= length blocks)%nat -> pem_file blocks = Ok rep ->
+  nth_error blocks n = Some (BEC kind state p) -> nth_error (i_children rep) n = Some i ->
+  In (bs "Curve (inferred)", shown) (i_attrs i) ->
+  state = 2 /\ curve_name p = Ok shown /\
+  exists nm k, infer p = Ok (Some nm) /\ nist nm = Some k /\ exact k p.
+Proof.
+  intros blocks rep n kind state p i shown Hl H Hb Hr Hin.
+  destruct (pem_file_children blocks rep Hl H) as [Hd _].
+  eapply bundle_exact; eauto.
+Qed.
+
+(* non-vacuity: the bundle of the seeded change's shape -- genuine P-256 parameters, then a key whose b
+   has one flipped bit -- reports the name for the first block only *)
+Definition p256_b_flipped : ec_params :=
+  let g := genuine_params nist_p256 false true 1 in
+  mk_ecp (p_field g) (p_prime g) (p_char2 g) (p_a g)
+         (match p_b g with x :: r => N.lxor x 1 :: r | [] => [] end)
+         (p_seed g) (p_seed_bits g) (p_base g) (p_order g) (p_cofactor g).
+
+Definition has_inferred (i : info) : bool :=
+  existsb (fun nv => bytes_eqb (fst nv) (bs "Curve (inferred)")) (i_attrs i).
+
+Lemma bundle_example :
+  match pem_file [BEC 3 2 (genuine_params nist_p256 false true 1); BEC 2 2 p256_b_flipped] with
+  | Ok (Info _ _ [i1; i2]) => has_inferred i1 && negb (has_inferred i2)
+  | _ => false
+  end = true.
+Proof. vm_compute. reflexivity. Qed.
